@@ -162,15 +162,23 @@ class Source:
             # signature end: first '{' or ';' at paren depth 0 (where-clauses contain no braces here)
             k = m.end()
             depth = 0
+            angle = 0
             while k < hi:
                 ch = self.masked[k]
                 if ch in '([':
                     depth += 1
                 elif ch in ')]':
                     depth -= 1
-                elif ch == '{' and depth == 0:
+                elif ch == '<' and depth == 0:
+                    angle += 1
+                elif ch == '>' and depth == 0 and self.masked[k - 1] not in '-=' and angle > 0:
+                    angle -= 1
+                elif ch == '{' and depth == 0 and angle == 0:
                     break
-                elif ch == ';' and depth == 0:
+                elif ch == '{' and depth == 0 and angle > 0:
+                    # const-generic block expression inside <...>
+                    k = match_brace(self.masked, k)
+                elif ch == ';' and depth == 0 and angle == 0:
                     break
                 k += 1
             if self.masked[k] == ';':
